@@ -138,7 +138,8 @@ class C08(Check):
             "at every byte offset (files <= 6 KB; larger ones at every offset within 40 bytes of a record boundary plus "
             "a stride) and ERst must either raise or return, for each listed step, a prefix of the arrays written with "
             "identical content.  Non-trivial: history with a rewind strictly inside the current range leaving >= 3 "
-            "survivors; distinct by (format, step sequence, payload shape).")
+            "survivors; distinct by (format, step sequence, payload shape)."
+            " Extended during the build phase: SEQNUM-only writes, arrays of strings longer than 8 characters (C0nn, widths 9..132, counts around 840/width and 105), steps with several arrays of one name; every array is read through its index AND through (name, step, occurrence).")
     ASSUMPTIONS = ["a crash is modelled as truncation of the file at a byte offset (what a killed writer leaves)",
                    "after truncation at an array boundary the last listed step may hold fewer arrays than were written "
                    "(no reader can know); every array that is returned must be exact",
